@@ -126,19 +126,11 @@ predicate:
 									{ $$ = ast.NewBinary(ast.BinaryStartsWith, $1, $4) }
 	| expr LIKE_REGEX_P STRING_P
 	{
-		var err error
-		$$, err = ast.NewRegex($1, $3, "")
-		if err != nil {
-			pathlex.Error(err.Error())
-		}
+		$$ = pathlex.(*lexer).newRegex($1, $3, "")
 	}
 	| expr LIKE_REGEX_P STRING_P FLAG_P STRING_P
 	{
-		var err error
-		$$, err = ast.NewRegex($1, $3, $5)
-		if err != nil {
-			pathlex.Error(err.Error())
-		}
+		$$ = pathlex.(*lexer).newRegex($1, $3, $5)
 	}
 	;
 
